@@ -62,6 +62,9 @@ def run(ctx):
     m4 = re.search(r'R4 = (\d+)', cout)
     in_dom = int(m4.group(1)) if m4 else 0
 
+    lsp_n, lsp_bad = lsp_cases(ctx, lookups)
+    cli_n = cli_cases(ctx)
+
     # ---- verdicts -------------------------------------------------------------------------
     for i in sorted(set(r2)):
         c = lookups[i]
@@ -102,12 +105,13 @@ def run(ctx):
     distinct = len({json.dumps([c['m'], c['file']], sort_keys=True) for c in lookups}) + \
         len({json.dumps([t['manifests'], t['project'], t['roots']], sort_keys=True) for t in trees})
     cov = proof_coverage(ctx, {
-        'evaluations': len(lookups) + nobs,
+        'evaluations': len(lookups) + nobs + lsp_n + cli_n,
         'distinct_nontrivial': distinct,
         'rule': 'lookup cases: every pair of clean keys x versions x 18 directories (exhaustive) plus random maps of 1-3 keys '
                 'incl. unclean spellings; tree cases: temp workspaces with manifests/project/roots over dirs {"",a,ab,a/b,b}, 15 files '
                 'each addressed absolutely and relatively from 3-4 working directories. distinct = distinct (map,file) pairs + distinct trees',
         'lookup_cases': len(lookups), 'lookup_cases_in_spec_domain': in_dom, 'trees': len(trees), 'tree_observations': nobs,
+        'lsp_cases': lsp_n, 'lsp_mismatches': lsp_bad, 'cli_runs': cli_n,
         'mismatch_model_lookup': len(r1), 'mismatch_spec_lookup': len(r2), 'bad_trees': len(r3),
         'samples': [lookups[len(lookups) // 2], {k: trees[0][k] for k in ('manifests', 'project', 'roots', 'vmap')}, trees[0]['obs'][:3]],
         'exhaustive': False,
@@ -138,3 +142,137 @@ def tree_details(ctx, tdef):
     rc, out = vlib.coq_eval(ctx, 'Det_C20', '\n'.join(v))
     return {'vmap': vlib.parse_nat_list(out, 'D1') == [1], 'model': vlib.parse_nat_list(out, 'D2') or [],
             'spec': vlib.parse_nat_list(out, 'D3') or []}
+
+
+# ---- language server: LanguageServer.regoVersionForURI (overlay test in internal/lsp) --------------
+
+def lsp_cases(ctx, lookups):
+    """the lookup cases with rooted file names, addressed as file:// URIs below the workspace root"""
+    import json as _j
+    sel = [c for c in lookups if c['file'].startswith('/') and '//' not in c['file']][:400 if ctx.quick() else 3000]
+    roots = ['file:///R', 'file:///tmp/w s']
+    cases = []
+    for i, c in enumerate(sel):
+        root = roots[i % 2]
+        cases.append({'m': [{'K': kv['k'], 'V': kv['v']} for kv in c['m']], 'root': root,
+                      'uri': root.replace(' ', '%20') + c['file']})
+    inp, outp = os.path.join(ctx.tmp, 'lsp_in.json'), os.path.join(ctx.tmp, 'lsp_out.json')
+    _j.dump(cases, open(inp, 'w'))
+    rc, log = vlib.go_test_overlay(ctx, './internal/lsp',
+                                   {'internal/lsp/zz_verif_c20_test.go': os.path.join(vlib.VERIF, 'harness/overlay/c20_test.go')},
+                                   'TestVerifC20', env_extra={'VERIF_C20_IN': inp, 'VERIF_C20_OUT': outp})
+    if rc != 0 or not os.path.exists(outp):
+        if 'build failed' in log or 'cannot' in log:
+            raise vlib.HarnessBuildError(log)
+        raise RuntimeError('lsp overlay test failed: ' + log[-2000:])
+    got = _j.load(open(outp))
+    # model: strings.TrimPrefix(path(uri), path(root)) then the same lookup (any iteration order)
+    v = ['From Regal Require Import Check.C20Check.', 'Open Scope N_scope.',
+         'Definition cs : list lookup_case := ' + clist(
+             'LookupCase %s (trim_prefix %s %s) [%s]' % (
+                 vmap([{'k': e['K'], 'v': e['V']} for e in g['m']]),
+                 cstr(g['uri'][len('file://'):].replace('%20', ' ')), cstr(g['root'][len('file://'):]), VER[g['got']])
+             for g in got) + '.',
+         'Definition L1 := Eval vm_compute in failing lookup_agrees 0 cs.',
+         'Definition L2 := Eval vm_compute in failing lookup_meets_spec 0 cs.', 'Print L1. Print L2.']
+    rc, out = vlib.coq_eval(ctx, 'Cases_C20_lsp', '\n'.join(v))
+    if rc != 0:
+        raise RuntimeError('lsp case evaluation failed: ' + out[-2000:])
+    l1, l2 = vlib.parse_nat_list(out, 'L1') or [], vlib.parse_nat_list(out, 'L2') or []
+    for i in l2[:1]:
+        vlib.violation(ctx, {'kind': 'lsp-vs-spec', 'case': got[i],
+                             'what': 'regoVersionForURI(%s) with versions %s under root %s returned %s' % (
+                                 got[i]['uri'], got[i]['m'], got[i]['root'], got[i]['got'])},
+                       signature={'kind': 'lsp-vs-spec', 'key': _j.dumps([got[i]['m'], got[i]['uri']], sort_keys=True)})
+    if l1 and not l2:
+        vlib.violation(ctx, {'kind': 'correspondence', 'relation': 'Check.C20Check.lookup_agrees on LSP regoVersionForURI',
+                             'case': got[l1[0]], 'n_mismatches': len(l1)}, no_input=True)
+    return len(got), len(set(l1) | set(l2))
+
+
+# ---- the real binary: lint with relative/absolute spellings, and fix vs lint ---------------------------
+
+CONFIG = """project:
+  rego-version: 1
+  roots:
+    - path: a
+      rego-version: 0
+"""
+FILES = {
+    'a/v0only.rego': ('package a\n\nallow { input.x }\n', True),
+    'a/v1only.rego': ('package a\n\nallow if input.x\n', False),
+    'ab/v0only.rego': ('package ab\n\nallow { input.x }\n', False),
+    'ab/v1only.rego': ('package ab\n\nallow if input.x\n', True),
+    'a/b/v0only.rego': ('package a.b\n\nallow { input.x }\n', True),
+}
+
+
+def cli_cases(ctx):
+    import json as _j, subprocess
+    regal = vlib.build_regal(ctx)
+    root = os.path.join(ctx.tmp, 'cli_ws')
+    os.makedirs(os.path.join(root, '.regal'))
+    open(os.path.join(root, '.regal', 'config.yaml'), 'w').write(CONFIG)
+    for rel, (txt, _) in FILES.items():
+        os.makedirs(os.path.dirname(os.path.join(root, rel)), exist_ok=True)
+        open(os.path.join(root, rel), 'w').write(txt)
+    n = 0
+
+    def lint(cwd, arg):
+        p = subprocess.run([regal, 'lint', '--format', 'json', '--disable-all', arg], cwd=cwd,
+                           stdout=subprocess.PIPE, stderr=subprocess.PIPE, text=True, timeout=120)
+        if p.returncode == 1 and 'rego_parse_error' in (p.stdout + p.stderr):
+            return 'parse-error'
+        try:
+            r = _j.loads(p.stdout)
+        except ValueError:
+            return 'crash:%d' % p.returncode
+        return 'parse-error' if r.get('errors') else 'ok'
+
+    for rel, (_, should_parse) in FILES.items():
+        d = os.path.dirname(rel)
+        spellings = [('abs', root, os.path.join(root, rel)), ('rel-root', root, rel), ('rel-dot', root, './' + rel),
+                     ('rel-dir', os.path.join(root, d), os.path.basename(rel)),
+                     ('abs-from-elsewhere', '/', os.path.join(root, rel))]
+        seen = {}
+        for name, cwd, arg in spellings:
+            seen[name] = lint(cwd, arg)
+            n += 1
+        want = 'ok' if should_parse else 'parse-error'
+        bad = {k: v for k, v in seen.items() if v != want}
+        if bad:
+            k = sorted(bad)[0]
+            vlib.violation(ctx, {'kind': 'cli-spelling', 'config': CONFIG, 'file': rel, 'content': FILES[rel][0],
+                                 'observed': seen, 'expected': want,
+                                 'what': "regal lint of %s spelled %s gave %s, the configured directory version demands %s" % (rel, k, bad[k], want)},
+                           signature={'kind': 'cli-spelling', 'key': '%s|%s' % (rel, k)})
+            break
+    # fix must use the same version as lint: a file valid in both versions inside the v0 root gets use-rego-v1 from lint;
+    # `regal fix` must then repair it (it is a fixable rule)
+    fx = os.path.join(ctx.tmp, 'cli_fix')
+    os.makedirs(os.path.join(fx, '.regal'))
+    os.makedirs(os.path.join(fx, 'a'))
+    open(os.path.join(fx, '.regal', 'config.yaml'), 'w').write(CONFIG)
+    open(os.path.join(fx, 'a', 'both.rego'), 'w').write('package a\n\nx := 1\n')
+
+    def titles():
+        p = subprocess.run([regal, 'lint', '--format', 'json', 'a'], cwd=fx, stdout=subprocess.PIPE,
+                           stderr=subprocess.PIPE, text=True, timeout=120)
+        try:
+            return sorted(v['title'] for v in _j.loads(p.stdout).get('violations', []))
+        except ValueError:
+            return ['<no json>']
+    before = titles()
+    subprocess.run([regal, 'fix', '--force', 'a'], cwd=fx, stdout=subprocess.PIPE, stderr=subprocess.PIPE, timeout=120)
+    after = titles()
+    n += 3
+    if 'use-rego-v1' in before and 'use-rego-v1' in after:
+        vlib.violation(ctx, {'kind': 'fix-ignores-configured-version', 'config': CONFIG, 'file': 'a/both.rego',
+                             'content': 'package a\n\nx := 1\n', 'lint_before': before, 'lint_after_fix': after,
+                             'what': 'regal lint parses a/both.rego as v0 (root a) and reports use-rego-v1; regal fix parses it as v1 and leaves it'},
+                       signature={'kind': 'fix-ignores-configured-version',
+                                  'key': 'cmd/fix.go+pkg/fixer: versions map relative to config dir vs absolute file names; FixCandidate.RegoVersion unset'})
+    elif 'use-rego-v1' not in before:
+        vlib.violation(ctx, {'kind': 'cli-spelling', 'what': 'lint of a/both.rego in v0 root did not report use-rego-v1', 'observed': before},
+                       signature={'kind': 'cli-spelling', 'key': 'a/both.rego|use-rego-v1'})
+    return n
